@@ -212,6 +212,10 @@ PIPELINES = {
     "grouped_window": lambda t, u: t >> pdt.group_by(t.b) >> pdt.mutate(s=t.i64.sum(), r=pdt.dense_rank(arrange=t.f64)) >> pdt.ungroup(),
     "alias_subquery": lambda t, u: t >> pdt.mutate(r=pdt.row_number(arrange=t.i64)) >> pdt.alias("sub") >> pdt.filter(pdt.C.r <= 3) >> pdt.summarize(n=pdt.count()),
     "slice_alias_count": lambda t, u: t >> pdt.arrange(t.i64) >> pdt.slice_head(4, offset=1) >> pdt.alias() >> pdt.summarize(n=pdt.count()),
+    # no column of the subquery is referenced above it (only 0-ary functions / the other table's columns)
+    "slice_alias_count_unordered": lambda t, u: t >> pdt.slice_head(4) >> pdt.alias("s") >> pdt.summarize(n=pdt.count()),
+    "summarize_alias_count": lambda t, u: t >> pdt.group_by(t.i8) >> pdt.summarize(m=t.i64.max()) >> pdt.alias("s") >> pdt.summarize(n=pdt.count()),
+    "cross_join_sliced_alias_left_columns_only": lambda t, u: (lambda s: u >> pdt.cross_join(s) >> pdt.select(u.i64, u.s))(t >> pdt.slice_head(2) >> pdt.alias("s")),
     "slice_chain": lambda t, u: t >> pdt.arrange(t.s) >> pdt.slice_head(10, offset=2) >> pdt.slice_head(3, offset=1),
     "join_inner_left": lambda t, u: t >> pdt.join(u, (t.i64 == u.i64) & (t.s == u.s), "left") >> pdt.mutate(z=t.f64 + u.f64),
     "join_inequality": lambda t, u: t >> pdt.inner_join(u, [t.i64 <= u.i64, t.d == u.d]) >> pdt.select(t.i64, u.i64),
